@@ -670,13 +670,17 @@ def shares_helper(dl, lp, tyv, named, exit_node, ifs_):
             continue
         hs = [x["name"] for x in synq.walk(c["pat"]) if x.get("k") == "p_ident"]
         src = c["e"]
+        if src.get("k") == "path":      # the lookup may be computed into a local first
+            lb_ = lookup(dl.node, src["path"], e)
+            if lb_ and lb_[0] == "let" and lb_[1].get("init") is not None and contains(blk, lb_[1]):
+                src = lb_[1]["init"]
         while src.get("k") == "mcall" and src["method"] in ("cloned", "clone", "copied", "map", "as_ref", "as_deref"):
             if src["method"] == "map" and not re.fullmatch(r"\|(\w+)\| \1\.(clone|to_string|to_owned)\(\)", render(src["args"][0]) if src["args"] else ""):
                 break
             src = src["recv"]
         if not (src.get("k") == "mcall" and src["method"] == "get" and render(src["recv"]).endswith(".dtor_funcs") and len(hs) == 1):
             continue
-        key = render(src["args"][0]).lstrip("&*")
+        key = alias_root(dl, render(src["args"][0]).lstrip("&*"), src)
         ins = [m_ for m_ in e["then"]["stmts"] if m_.get("k") == "expr_stmt" and m_["e"].get("k") == "mcall" and m_["e"]["method"] == "insert"
                and render(m_["e"]["recv"]).endswith(".dtor_funcs")]
         shares.append((key, [(render(m_["e"]["args"][0]).lstrip("&*"), re.sub(r"\.(clone|to_string|to_owned)\(\)$", "", render(m_["e"]["args"][1])))
@@ -691,6 +695,19 @@ def shares_helper(dl, lp, tyv, named, exit_node, ifs_):
     if not ok1:
         return False, why1
     return True, f"shares the helper of the first TypeId with this C name ({det}); {why1}"
+
+
+def alias_root(dl, name, at):
+    """follow `let a = b;` / `let a = *b;` / `let a = b.clone();` chains back to the original local"""
+    for _ in range(6):
+        b = lookup(dl.node, name, at) if re.fullmatch(r"\w+", name) else None
+        init = b[1].get("init") if b and b[0] == "let" else None
+        r = render(init) if init is not None else ""
+        m_ = re.fullmatch(r"[&*]*(\w+)(\.clone\(\))?", r)
+        if not m_ or b[1]["pat"].get("k") != "p_ident":
+            return name
+        name, at = m_.group(1), b[1]
+    return name
 
 
 def first_id_origin(dl, lp, tyv, named, letc, use):
@@ -726,15 +743,13 @@ def first_id_origin(dl, lp, tyv, named, letc, use):
         if not m_ or m_.group(3) != tyv:
             return False, f"the candidate id `{next(iter(locs))}` = `{r[:60]}` is not `prim_names.entry(<name>).or_insert({tyv})`"
         if cname is not None:
-            nb = lookup(dl.node, cname, use)
-            kb = lookup(dl.node, m_.group(2), v)
-            same = m_.group(2) == cname and True
-            if not same:
-                # the tuple `(.., name)` hands the inner `name` out as the outer one: accept when it is that tuple's other component
-                outer = nb[1] if nb and nb[0] == "let" else None
-                same = outer is b[1] and kb is not None
-            if not same:
-                return False, f"`prim_names` is keyed by `{m_.group(2)}`, but the type is named `{cname}`"
+            # the key must be the very string that becomes the type's C name: `cname` itself, or the local that the same
+            # `let (.., cname) = ..` hands out as its name component
+            np_ = pat_path(b[1]["pat"], cname)
+            outs = {x["path"] for x in (tail_values(b[1].get("init"), np_) if np_ is not None else []) if x is not None and x.get("k") == "path"}
+            if m_.group(2) != cname and m_.group(2) not in outs:
+                return False, (f"`prim_names` is keyed by `{m_.group(2)}`, which is not the C name given to the type (`{cname}`): the "
+                               "TypeId found there need not be a type with the same C definition")
         if not re.search(r"\b" + re.escape(next(iter(locs))) + r"\s*!=\s*" + re.escape(tyv) + r"\b|\b" + re.escape(tyv) + r"\s*!=\s*" + re.escape(next(iter(locs))) + r"\b", render(v)):
             return False, f"`{render(v)[:50]}` does not exclude the type itself"
         seen += 1
